@@ -1,6 +1,7 @@
 (* C04 property theorems. Nothing but statements closed by [exact] and Print Assumptions. *)
 From VF Require Import Common.Base Common.Hist C04.Spec C04.Model C04.Proofs C04.ProofsRange C04.Check C04.ProofsLin.
-From VF Require C04.LazySkip C04.ProofsLazy.
+From VF Require C04.LazySkip C04.ProofsLazy C04.LazyReach C04.LazyLock C04.LazyProgress C04.LazyHist C04.LazyTrace
+  C04.LazyLinz C04.LazyLinThm C04.LazyRace C04.LazyPoints C04.LazyMap C04.ProofsLazyMap.
 Local Open Scope Z_scope.
 
 (* single-threaded use matches the reference map / set exactly: for every operation list and every
@@ -136,6 +137,244 @@ Example C04_lazyskip_nonvacuous :
   length (LazySkip.hp s) = 5%nat.
 Proof. vm_compute. auto. Qed.
 
+(* ---- protocol model, lock discipline (LazyLock.v / LazyProgress.v) ---- *)
+
+(* the lock / flag / reachability invariant: every thread's validated facts hold while it holds the lock
+   (tk), a locked node names its holder (own), unmarked nodes are reachable from the header, a node that is
+   not fully linked has a creator about to set the flag, a marked node still reachable has a remover,
+   distinct creators create distinct nodes *)
+Theorem C04_lazyskip_inv2 : forall progs sched,
+  LazyLock.Inv2 (LazySkip.run_sched (LazySkip.init progs) sched).
+Proof. exact LazyLock.lazy_inv2. Qed.
+
+(* mutual exclusion: a locked node is locked by the thread whose program counter holds it *)
+Theorem C04_lazyskip_lock_holder : forall progs sched i t,
+  let s := LazySkip.run_sched (LazySkip.init progs) sched in
+  ProofsLazy.valid (LazySkip.hp s) i -> LazySkip.lock (LazySkip.get (LazySkip.hp s) i) = Some t ->
+  exists th, nth_error (LazySkip.ths s) t = Some th /\ In i (LazyLock.held (LazySkip.at_pc th)).
+Proof. exact LazyLock.lock_holder. Qed.
+
+(* a lock is only released (or changed at all) by a step of its holder *)
+Theorem C04_lazyskip_lock_release : forall progs sched t i t2,
+  let s := LazySkip.run_sched (LazySkip.init progs) sched in
+  ProofsLazy.valid (LazySkip.hp s) i -> LazySkip.lock (LazySkip.get (LazySkip.hp s) i) = Some t2 ->
+  LazySkip.lock (LazySkip.get (LazySkip.hp (LazySkip.step s t)) i) <> Some t2 -> t = t2.
+Proof. exact LazyLock.lock_release_by_holder. Qed.
+
+(* no step writes the next pointer of an existing node without holding that node's lock; the node written
+   is not marked *)
+Theorem C04_lazyskip_next_under_lock : forall progs sched t i,
+  let s := LazySkip.run_sched (LazySkip.init progs) sched in
+  ProofsLazy.valid (LazySkip.hp s) i ->
+  LazySkip.next (LazySkip.get (LazySkip.hp (LazySkip.step s t)) i) <> LazySkip.next (LazySkip.get (LazySkip.hp s) i) ->
+  LazySkip.lock (LazySkip.get (LazySkip.hp s) i) = Some t /\
+  LazySkip.marked (LazySkip.get (LazySkip.hp (LazySkip.step s t)) i) = false.
+Proof. exact LazyLock.next_written_under_lock. Qed.
+
+(* no deadlock (and no livelock of everybody): in every reachable state either every thread has finished its
+   program, or some unfinished thread has a step that changes the state *)
+Theorem C04_lazyskip_no_deadlock : forall progs sched,
+  let s := LazySkip.run_sched (LazySkip.init progs) sched in
+  Forall LazyProgress.finished (LazySkip.ths s) \/
+  exists t th, nth_error (LazySkip.ths s) t = Some th /\ ~ LazyProgress.finished th /\ LazySkip.step s t <> s.
+Proof. exact LazyProgress.lazy_no_deadlock. Qed.
+
+(* ---- protocol model, where operations take effect (LazyPoints.v, LazyLinz.v) ---- *)
+
+(* a successful Add takes effect at its fullyLinked step: its key is absent from the abstract set before the
+   step and the set after the step is the old one plus the key *)
+Theorem C04_lazyskip_add_effect : forall progs sched,
+  let s := LazySkip.run_sched (LazySkip.init progs) sched in
+  forall t th k pred nn, nth_error (LazySkip.ths s) t = Some th -> LazySkip.at_pc th = LazySkip.AFull k pred nn ->
+  ~ In k (LazySkip.abs (LazySkip.hp s)) /\ In k (LazySkip.abs (LazySkip.hp (LazySkip.step s t))) /\
+  forall y, In y (LazySkip.abs (LazySkip.hp (LazySkip.step s t))) <-> y = k \/ In y (LazySkip.abs (LazySkip.hp s)).
+Proof. exact LazyPoints.add_takes_effect. Qed.
+
+(* an Add that reports failure does so at a step at which its key is in the abstract set *)
+Theorem C04_lazyskip_add_fail : forall progs sched,
+  let s := LazySkip.run_sched (LazySkip.init progs) sched in
+  forall t th k pred, nth_error (LazySkip.ths s) t = Some th -> LazySkip.at_pc th = LazySkip.AFind k pred ->
+  snd (LazySkip.action (LazySkip.hp s) t (LazySkip.AFind k pred)) = LazySkip.Done false ->
+  In k (LazySkip.abs (LazySkip.hp s)).
+Proof. exact LazyPoints.add_fails_present. Qed.
+
+(* a successful Remove takes effect at its marking step: the key is present before, and the set after the
+   step is the old one minus the key *)
+Theorem C04_lazyskip_remove_effect : forall progs sched,
+  let s := LazySkip.run_sched (LazySkip.init progs) sched in
+  forall t th k pred v, nth_error (LazySkip.ths s) t = Some th -> LazySkip.at_pc th = LazySkip.RMark k pred v ->
+  LazySkip.marked (LazySkip.get (LazySkip.hp s) v) = false ->
+  In k (LazySkip.abs (LazySkip.hp s)) /\ ~ In k (LazySkip.abs (LazySkip.hp (LazySkip.step s t))) /\
+  forall y, In y (LazySkip.abs (LazySkip.hp (LazySkip.step s t))) <-> y <> k /\ In y (LazySkip.abs (LazySkip.hp s)).
+Proof. exact LazyPoints.remove_takes_effect. Qed.
+
+(* every completed operation of every execution (complete or not) has a linearization point strictly after its
+   invocation step a and not after its response step b: either a moment m (the state before step m) at which the
+   set specification gives the reported answer without changing state -- for an unsuccessful Remove / Contains
+   this uses the hindsight argument: the key was absent at some moment inside the interval -- or, for a
+   successful Add / Remove, its own fullyLinked / marking step m *)
+Theorem C04_lazyskip_lin_points : forall progs sched e,
+  In e (LazyHist.i_log (LazyHist.irun progs sched)) ->
+  exists a b o r,
+    LazyHist.e_op e = Build_op (N.of_nat a) (N.of_nat b) (LazyHist.sop_of o) (RBool r) /\ (a < b < length sched)%nat /\
+    ((exists m, LazyHist.e_pt e = (2 * m)%nat /\ (a < m <= b)%nat /\
+                LazyLinz.obsfact o r (LazySkip.hp (LazyTrace.st progs sched m))) \/
+     (exists m t, LazyHist.e_pt e = (2 * m + 1)%nat /\ (a < m <= b)%nat /\ r = true /\
+                  LazyLinz.linstep progs sched m t o)).
+Proof. exact LazyLinThm.lazy_points. Qed.
+
+(* ---- protocol model, linearizability (LazyLinThm.v) ---- *)
+
+(* the recorded history of every complete execution (all threads ran their whole programs; any programs, any
+   schedule) is linearizable with respect to the set specification, in the sense of Common/Hist.v -- the same
+   definition the verified checker decides on the histories of the real code; the final specification state has
+   the members of the final abstract set *)
+Theorem C04_lazyskip_linearizable : forall progs sched,
+  LazyHist.complete (LazySkip.run_sched (LazySkip.init progs) sched) = true ->
+  linearizable fset sop mres fset_step [] (LazyHist.history progs sched) /\
+  exists S', lin_to fset sop mres fset_step [] (LazyHist.history progs sched) S' /\
+             forall x, In x S' <-> In x (LazySkip.abs (LazySkip.hp (LazySkip.run_sched (LazySkip.init progs) sched))).
+Proof.
+  exact (fun progs sched C => conj (LazyLinThm.lazy_linearizable progs sched C) (LazyLinThm.lazy_lin_to progs sched C)).
+Qed.
+
+(* exactly one of several racing Adds of the same key reports success: complete execution, no Remove of k *)
+Theorem C04_lazyskip_one_add_wins : forall progs sched,
+  LazyHist.complete (LazySkip.run_sched (LazySkip.init progs) sched) = true ->
+  forall k, (forall o, In o (LazyHist.history progs sched) -> LazyRace.is_rem k o = false) ->
+  existsb (LazyRace.is_add k) (LazyHist.history progs sched) = true ->
+  length (filter (fun o => LazyRace.is_add k o && LazyRace.ok_ret o) (LazyHist.history progs sched)) = 1%nat.
+Proof. exact LazyRace.race_adds. Qed.
+
+(* exactly one of several racing Removes of the same key reports success: complete execution, the key is added
+   by one Add a (the only Add of k), every Remove of k is invoked after a has responded *)
+Theorem C04_lazyskip_one_remove_wins : forall progs sched,
+  LazyHist.complete (LazySkip.run_sched (LazySkip.init progs) sched) = true ->
+  forall k a, filter (LazyRace.is_add k) (LazyHist.history progs sched) = [a] ->
+  (forall o, In o (LazyHist.history progs sched) -> LazyRace.is_rem k o = true -> (resp a < inv o)%N) ->
+  existsb (LazyRace.is_rem k) (LazyHist.history progs sched) = true ->
+  length (filter (fun o => LazyRace.is_rem k o && LazyRace.ok_ret o) (LazyHist.history progs sched)) = 1%nat /\
+  LazyRace.ok_ret a = true.
+Proof. exact LazyRace.race_removes. Qed.
+
+(* non-vacuity: three threads racing on key 5 (adds, removes, a contains), round-robin: the execution is complete,
+   its recorded history has 9 operations, is accepted by the verified checker, and two Adds of 5 overlap of which
+   one fails *)
+Example C04_lazyskip_history_nonvacuous :
+  let progs := [[LazySkip.OAdd 5; LazySkip.ORemove 5; LazySkip.OAdd 7];
+                [LazySkip.OAdd 5; LazySkip.OContains 5; LazySkip.OAdd 5];
+                [LazySkip.ORemove 5; LazySkip.OAdd 3; LazySkip.ORemove 5]] in
+  let sched := flat_map (fun _ => seq 0 3) (seq 0 80) in
+  LazyHist.complete (LazySkip.run_sched (LazySkip.init progs) sched) = true /\
+  length (LazyHist.history progs sched) = 9%nat /\
+  set_lin_check [] (LazyHist.history progs sched) = true /\
+  In (Build_op 0 18 (AddB 5 0) (RBool true))%N (LazyHist.history progs sched) /\
+  In (Build_op 1 28 (AddB 5 0) (RBool false))%N (LazyHist.history progs sched).
+Proof. vm_compute. intuition. Qed.
+
+(* non-vacuity of the two racing theorems: their hypotheses hold on concrete complete executions (three racing
+   Adds of 5; one Add of 5 completed before two racing Removes of 5), and exactly one operation wins *)
+Example C04_lazyskip_race_nonvacuous :
+  let p1 := [[LazySkip.OAdd 5]; [LazySkip.OAdd 5]; [LazySkip.OAdd 5]] in
+  let s1 := flat_map (fun _ => seq 0 3) (seq 0 14) in
+  let p2 := [[LazySkip.OAdd 5]; [LazySkip.ORemove 5]; [LazySkip.ORemove 5]] in
+  let s2 := repeat 0%nat 8 ++ flat_map (fun _ => [1; 2]%nat) (seq 0 14) in
+  let a := Build_op 0 6 (AddB 5 0) (RBool true) in
+  (LazyHist.complete (LazySkip.run_sched (LazySkip.init p1) s1) = true /\
+   forallb (fun o => negb (LazyRace.is_rem 5 o)) (LazyHist.history p1 s1) = true /\
+   existsb (LazyRace.is_add 5) (LazyHist.history p1 s1) = true /\
+   map ret (LazyHist.history p1 s1) = [RBool true; RBool false; RBool false]) /\
+  (LazyHist.complete (LazySkip.run_sched (LazySkip.init p2) s2) = true /\
+   filter (LazyRace.is_add 5) (LazyHist.history p2 s2) = [a] /\
+   forallb (fun o => negb (LazyRace.is_rem 5 o) || (resp a <? inv o)%N) (LazyHist.history p2 s2) = true /\
+   existsb (LazyRace.is_rem 5) (LazyHist.history p2 s2) = true /\
+   map ret (LazyHist.history p2 s2) = [RBool true; RBool true; RBool false]).
+Proof. vm_compute. intuition. Qed.
+
+(* ---- protocol model with the value field (LazyMap.v): Store / Load / LoadAndDelete of skipmap ---- *)
+
+(* mutual exclusion bookkeeping, for the repaired (rep = true) and the pre-repair (rep = false) Store *)
+Theorem C04_lazymap_lock_owner : forall rep progs sched,
+  let s := LazyMap.run rep progs sched in
+  (forall i t, LazyMap.lock (LazyMap.get (LazyMap.hp s) i) = Some t ->
+     exists th, nth_error (LazyMap.ths s) t = Some th /\ In i (ProofsLazyMap.held (LazyMap.at_pc th))) /\
+  (forall t th i, nth_error (LazyMap.ths s) t = Some th -> In i (ProofsLazyMap.held (LazyMap.at_pc th)) ->
+     LazyMap.lock (LazyMap.get (LazyMap.hp s) i) = Some t) /\
+  (forall t t' i, LazyMap.lock (LazyMap.get (LazyMap.hp s) i) = Some t -> t' <> t ->
+     LazyMap.lock (LazyMap.get (LazyMap.hp (LazyMap.step rep s t')) i) = Some t).
+Proof. exact ProofsLazyMap.lazymap_lock_owner. Qed.
+
+(* repaired code: the value of an existing node is written only by the holder of the node's lock, on a node
+   that is fully linked and not marked; marked is only set by the holder of the lock *)
+Theorem C04_lazymap_value_write : forall progs sched t n,
+  let s := LazyMap.run true progs sched in
+  let s' := LazyMap.step true s t in
+  ProofsLazyMap.valid (LazyMap.hp s) n ->
+  (LazyMap.value (LazyMap.get (LazyMap.hp s') n) <> LazyMap.value (LazyMap.get (LazyMap.hp s) n) ->
+     LazyMap.lock (LazyMap.get (LazyMap.hp s) n) = Some t /\ LazyMap.marked (LazyMap.get (LazyMap.hp s) n) = false /\
+     LazyMap.linked (LazyMap.get (LazyMap.hp s) n) = true) /\
+  (LazyMap.marked (LazyMap.get (LazyMap.hp s') n) <> LazyMap.marked (LazyMap.get (LazyMap.hp s) n) ->
+     LazyMap.lock (LazyMap.get (LazyMap.hp s) n) = Some t).
+Proof. exact ProofsLazyMap.lazymap_value_write. Qed.
+
+(* repaired code: once a node is marked its value never changes again *)
+Theorem C04_lazymap_marked_frozen : forall progs sched sched' n,
+  LazyMap.marked (LazyMap.get (LazyMap.hp (LazyMap.run true progs sched)) n) = true ->
+  LazyMap.value (LazyMap.get (LazyMap.hp (LazyMap.run true progs (sched ++ sched'))) n) =
+    LazyMap.value (LazyMap.get (LazyMap.hp (LazyMap.run true progs sched)) n) /\
+  LazyMap.marked (LazyMap.get (LazyMap.hp (LazyMap.run true progs (sched ++ sched'))) n) = true.
+Proof. exact ProofsLazyMap.lazymap_marked_frozen. Qed.
+
+(* repaired code, no lost update (1): a LoadAndDelete that marked victim v at the end of sched1 and later reaches
+   its final read returns the value v had when it was marked, i.e. the last value stored into the node *)
+Theorem C04_lazymap_lad_returns_marked_value : forall progs sched1 sched2 t th1 th2 k pred v,
+  let s1 := LazyMap.run true progs sched1 in
+  let s2 := LazyMap.run true progs (sched1 ++ t :: sched2) in
+  nth_error (LazyMap.ths s1) t = Some th1 -> LazyMap.at_pc th1 = LazyMap.RMark k pred v ->
+  LazyMap.marked (LazyMap.get (LazyMap.hp s1) v) = false ->
+  nth_error (LazyMap.ths s2) t = Some th2 -> LazyMap.at_pc th2 = LazyMap.RRead v ->
+  LazyMap.pc_of (LazyMap.step true s2 t) t = LazyMap.Done (LazyMap.value (LazyMap.get (LazyMap.hp s1) v)) true.
+Proof. exact ProofsLazyMap.lazymap_lad_returns_marked_value. Qed.
+
+(* repaired code, no lost update (2): a Store takes effect inside its interval -- when it writes the value into
+   an existing node it holds the node's lock and the node is fully linked and not marked, and right after the
+   write (resp. after the fullyLinked step of a new node) the pair (k, v) is in the abstract map *)
+Theorem C04_lazymap_store_visible : forall progs sched t th k v c,
+  let s := LazyMap.run true progs sched in
+  let h' := LazyMap.hp (LazyMap.step true s t) in
+  nth_error (LazyMap.ths s) t = Some th ->
+  LazyMap.at_pc th = LazyMap.SWrite k v c \/ (exists pred, LazyMap.at_pc th = LazyMap.SFull k v pred c) ->
+  (LazyMap.at_pc th = LazyMap.SWrite k v c ->
+     LazyMap.lock (LazyMap.get (LazyMap.hp s) c) = Some t /\ LazyMap.linked (LazyMap.get (LazyMap.hp s) c) = true /\
+     LazyMap.marked (LazyMap.get (LazyMap.hp s) c) = false) /\
+  LazyMap.key (LazyMap.get h' c) = k /\ LazyMap.value (LazyMap.get h' c) = v /\
+  LazyMap.linked (LazyMap.get h' c) = true /\ LazyMap.marked (LazyMap.get h' c) = false /\
+  In (k, v) (LazyMap.absmap h').
+Proof. exact ProofsLazyMap.lazymap_store_visible. Qed.
+
+(* the code BEFORE the repair (Store tests marked and writes the value without the node lock) loses updates:
+   a step writes the value of a node that is already marked and unlocked ... *)
+Theorem C04_lazymap_prerepair_refuted :
+  exists progs sched t n, let s := LazyMap.run false progs sched in
+    ProofsLazyMap.valid (LazyMap.hp s) n /\ LazyMap.marked (LazyMap.get (LazyMap.hp s) n) = true /\
+    LazyMap.lock (LazyMap.get (LazyMap.hp s) n) = None /\
+    LazyMap.value (LazyMap.get (LazyMap.hp (LazyMap.step false s t)) n) <> LazyMap.value (LazyMap.get (LazyMap.hp s) n).
+Proof. exact ProofsLazyMap.lazymap_prerepair_refuted. Qed.
+
+(* ... and the history of that complete execution (Store 1 10; Store 1 20 || LoadAndDelete 1 -> (10, true); then
+   Load 1 -> absent) is rejected by the verified checker, while the repaired code on the same programs is accepted *)
+Theorem C04_lazymap_prerepair_history_rejected :
+  LazyMap.quiescent (LazyMap.run false ProofsLazyMap.ex_progs ProofsLazyMap.ex_sched0) = true /\
+  map_lin_check [] (LazyMap.history false ProofsLazyMap.ex_progs ProofsLazyMap.ex_sched0) = false /\
+  LazyMap.quiescent (LazyMap.run true ProofsLazyMap.ex_progs ProofsLazyMap.ex_sched1) = true /\
+  map_lin_check [] (LazyMap.history true ProofsLazyMap.ex_progs ProofsLazyMap.ex_sched1) = true.
+Proof.
+  exact (conj (proj1 ProofsLazyMap.lazymap_prerepair_history_rejected)
+        (conj (proj2 (proj2 ProofsLazyMap.lazymap_prerepair_history_rejected))
+        (conj (proj1 ProofsLazyMap.lazymap_repaired_history_accepted)
+              (proj2 (proj2 ProofsLazyMap.lazymap_repaired_history_accepted))))).
+Qed.
+
 Print Assumptions C04_seq_map.
 Print Assumptions C04_seq_set.
 Print Assumptions C04_seq_map_state.
@@ -150,3 +389,22 @@ Print Assumptions C04_range_ok_b.
 Print Assumptions C04_lazyskip_inv.
 Print Assumptions C04_lazyskip_sorted.
 Print Assumptions C04_lazyskip_abs_frame.
+Print Assumptions C04_lazyskip_inv2.
+Print Assumptions C04_lazyskip_lock_holder.
+Print Assumptions C04_lazyskip_lock_release.
+Print Assumptions C04_lazyskip_next_under_lock.
+Print Assumptions C04_lazyskip_no_deadlock.
+Print Assumptions C04_lazyskip_add_effect.
+Print Assumptions C04_lazyskip_add_fail.
+Print Assumptions C04_lazyskip_remove_effect.
+Print Assumptions C04_lazyskip_lin_points.
+Print Assumptions C04_lazyskip_linearizable.
+Print Assumptions C04_lazyskip_one_add_wins.
+Print Assumptions C04_lazyskip_one_remove_wins.
+Print Assumptions C04_lazymap_lock_owner.
+Print Assumptions C04_lazymap_value_write.
+Print Assumptions C04_lazymap_marked_frozen.
+Print Assumptions C04_lazymap_lad_returns_marked_value.
+Print Assumptions C04_lazymap_store_visible.
+Print Assumptions C04_lazymap_prerepair_refuted.
+Print Assumptions C04_lazymap_prerepair_history_rejected.
